@@ -1,6 +1,7 @@
 /-
   C05  Session id renewed at every login redirect; cookie host-locked and protected.
 -/
+import AuthProofs.StateInventory
 import AuthProofs.Ladder
 import AuthProofs.CodeEquivOidc
 import AuthProofs.StrLemmas
@@ -97,6 +98,9 @@ theorem code_session_id_from_cookie (env : Go.Env) (headers : Go.Map) (c : Pb.OI
 example : Code.getSessionIDFromCookie {} [(B "cookie", B "a=1; __Host-authservice-session-id-cookie=s1; b=2")] {} = .ok (B "s1") := by decide
 example : Code.generateSetCookieHeader {} (B "n") (B "v") 0 = .ok (B "n=v; HttpOnly; Secure; SameSite=Lax; Path=/; Max-Age=0") := by decide
 
+/-- NO HIDDEN STATE: the model treats a check as a function of (configuration, request, store answers, clock, IdP and key-source answers, entropy); that is a faithful reading of the code only if nothing else survives from one check to the next. Regenerated on every run: every package-level variable and struct field of internal/server, internal/authz, internal/http, internal/oidc is the classified expectation, and handlers, filter, HTTP helpers and the Redis store own no mutable state (no verdict cache, handler cache, object pool, single-flight group or per-process copy of session data). -/
+theorem no_hidden_state : CheckPathInventory := check_path_inventory
+
 end AuthProps.C05
 
 #print axioms AuthProps.C05.redirect_renews
@@ -110,3 +114,4 @@ end AuthProps.C05
 #print axioms AuthProps.C05.code_cookie_name_host_prefix
 #print axioms AuthProps.C05.code_set_cookie_shape
 #print axioms AuthProps.C05.code_session_id_from_cookie
+#print axioms AuthProps.C05.no_hidden_state
